@@ -9,6 +9,13 @@ import random as _pyrandom
 
 from .core import HarnessError
 
+SEAM_RANGES = ("model seam (what the generated table models look like to msdm): <= 6 non-absorbing states unless stated otherwise (a few % 10-20); "
+               "transition probabilities multiples of 1/8, in 12% of the models thirds / elevenths that sum to 1 only up to rounding; rewards from small sets "
+               "such as {-3..3, +-0.5}, a few % scaled by 1e6 or 1e-9, handed back as float, numpy.float64 or (when integral) int; state / action keys "
+               "int, str, tuple, frozendict, negative ints (equal hashes), 0-based ints (falsy), float twins; distributions written as literals, as `|`-mixtures "
+               "of scaled point masses, or as Deterministic / Uniform distributions; initial states given by call-back, by object or by initial_state=; "
+               "action lists fresh, cached per state, shared by all states, or tuples")
+
 KEY_KINDS = ('int', 'str', 'tuple', 'fd', 'negint', 'int0')
 
 
